@@ -199,9 +199,10 @@ class InMemoryAlignmentStorage(AbstractAlignmentStorage):
         # first alignment among sorted that has its end inside the start_bin, e.g. close to region[0]
         start_bin = region[0] // self.COVERAGE_BIN
         start_index = self.alignment_end_index[start_bin]
-        # first alignment that has its start after region[1]
+        # first alignment that has its start after the bin containing region[1]
+        # (alignments starting inside this bin may still overlap the region)
         end_bin = region[1] // self.COVERAGE_BIN
-        end_index = self.alignment_start_index[end_bin]
+        end_index = self.alignment_start_index[end_bin + 1]
 
         for i in range(start_index, end_index):
             bam_index, alignment = self.alignment_storage[i]
